@@ -21,9 +21,9 @@ Has(e, f) == f \in DOMAIN e
 \* 0x73eda753299d7d483339d80809a1d80553bda402fffe5bfeffffffff00000001
 BlsR == <<1, 0, 0, 0, 255, 255, 255, 255, 254, 91, 254, 255, 2, 164, 189, 83, 5, 216, 161, 9, 8, 216, 57, 51, 72, 125, 157, 41, 83, 167, 237, 115>>
 
-DigestLen(alg) == CASE alg \in {"sha256", "sha256_varlen", "sha3_256", "keccak_256", "blake2b_256"} -> 32
+DigestLen(alg) == CASE alg = "ripemd160" -> 20 [] alg \in {"sha256", "sha256_varlen", "sha3_256", "keccak_256", "blake2b_256"} -> 32
                     [] alg \in {"sha512", "blake2b_512"} -> 64 [] alg \in {"poseidon", "poseidon_varlen"} -> 1
-Defined(alg) == alg \in {"sha256", "sha256_varlen", "sha512", "poseidon", "poseidon_varlen"}
+Defined(alg) == alg \in {"sha256", "sha256_varlen", "sha512", "ripemd160", "poseidon", "poseidon_varlen"}
 IsPos(alg) == alg \in {"poseidon", "poseidon_varlen"}
 ByteVals(groups) == [i \in 1..Len(groups) |-> ToInt(groups[i])]
 IsByteSeq(groups) == \A i \in 1..Len(groups) : Len(groups[i]) <= 1
@@ -31,6 +31,7 @@ IsByteSeq(groups) == \A i \in 1..Len(groups) : Len(groups[i]) <= 1
 Digest(e, msg) ==
   CASE e.alg \in {"sha256", "sha256_varlen"} -> Sha256(msg)
     [] e.alg = "sha512" -> Sha512(msg)
+    [] e.alg = "ripemd160" -> Ripemd160(msg)
     \* (the variable-length gadget hashes the elements actually supplied, whatever fills the rest of the vector)
     [] IsPos(e.alg) -> <<PoseidonHash(msg, pc.mds, pc.rc, BlsR)>>
     [] OTHER -> e.reference
